@@ -57,7 +57,7 @@ def take_last_with_time_(
             now = _scheduler.now
             while q:
                 _next = q.pop(0)
-                if now - _next["interval"] <= duration:
+                if now - _next["interval"] < duration:
                     observer.on_next(_next["value"])
 
             observer.on_completed()
